@@ -13,6 +13,7 @@
 -/
 import EasyMl.Lemmas.Decomp
 import Mathlib.Tactic.NormNum
+import Mathlib.LinearAlgebra.Matrix.NonsingularInverse
 
 namespace EasyMl.C08
 open EasyMl EasyMl.Decomp Finset
@@ -212,6 +213,86 @@ theorem ldlt_none_iff_zero_pivot {K : Type} [Field K] [NumOrd K]
 
 /-- Non-vacuity: `[[0,1],[1,0]]` has a zero first pivot. -/
 example : ldlt (⟨[0, 1, 1, 0], 2, 2⟩ : Matrix ℚ) = none := by decide +kernel
+
+/-! ### Householder reflections and QR -/
+
+/-- **Every Householder matrix the code builds is symmetric and orthogonal**: for every real
+    vector `x`, `H = householder x` (the model of `householder_matrix_tensor`, i.e.
+    `1 − 2·v·vᵀ` with `v = u/‖u‖`, `u = x ± ‖x‖·e₀`) satisfies `Hᵀ = H`, `H·H = 1`, `Hᵀ·H = 1`.
+    (For `x = 0` the code divides `0/0`; in ℝ with `x/0 = 0` this gives `H = 1`, in floating
+    point NaN — `householder_defined` shows the division is by a positive number otherwise.) -/
+theorem householder_orthogonal (x : List ℝ) :
+    (toMat x.length x.length (householder x)).transpose = toMat x.length x.length (householder x) ∧
+    toMat x.length x.length (householder x) * toMat x.length x.length (householder x) = 1 ∧
+    (toMat x.length x.length (householder x)).transpose * toMat x.length x.length (householder x) = 1 := by
+  obtain ⟨h1, h2⟩ := householder_orthogonal_aux x
+  exact ⟨h1, h2, by rw [h1, h2]⟩
+
+/-- The sign choice (`a = ‖x‖` if `x₀ > 0`, else `−‖x‖`) makes `u = x + a·e₀` non-zero for
+    every non-zero `x`: the normalisation divides by `‖u‖ > 0`. -/
+theorem householder_defined (x : List ℝ) (k : ℕ) (hk : x.getD k 0 ≠ 0) :
+    0 < Real.sqrt (sumSq (householderU x)) :=
+  Real.sqrt_pos.mpr (sumSq_householderU_pos x k hk)
+
+example : ([3, 4] : List ℝ).getD 1 0 ≠ 0 := by norm_num
+
+/-- **QR: `Q·R = A` and `QᵀQ = 1` for every real `M × N` input with `M ≥ N`** (every size, incl.
+    `1 × 1` and single-column inputs), with the documented shapes: `Q` is `M × M`, `R` is `M × N`.
+    The proof is an induction over the reflections that uses only `Hᵀ = H` and `H·H = 1`. -/
+theorem qr_product (A Q R : Matrix ℝ) (h : qr A = some (Q, R)) :
+    A.columns ≤ A.rows ∧ Shaped A.rows A.rows Q ∧ Shaped A.rows A.columns R ∧
+    toMat A.rows A.rows Q * toMat A.rows A.columns R = toMat A.rows A.columns A ∧
+    (toMat A.rows A.rows Q).transpose * toMat A.rows A.rows Q = 1 ∧
+    toMat A.rows A.rows Q * (toMat A.rows A.rows Q).transpose = 1 := by
+  obtain ⟨h1, h2, h3, h4, h5⟩ := qr_real h
+  exact ⟨h1, h2, h3, h4, h5, mul_eq_one_comm.mp h5⟩
+
+/-- **QR is absent exactly for wide inputs** (`N > M`); in particular it is present for `1 × 1`
+    and `M × 1` inputs.  (This is the repaired control flow; see `qr_asWritten_panics_iff`.) -/
+theorem qr_none_iff_wide {α : Type} [Add α] [Sub α] [Mul α] [Div α] [Neg α] [Zero α] [One α]
+    [RealFns α] [NumOrd α] (A : Matrix α) : qr A = none ↔ A.columns > A.rows := by
+  unfold qr
+  by_cases h : A.columns > A.rows <;> simp [h]
+
+/-- **Defect I-09 of the pinned code**: `q.unwrap()` panics exactly when the loop makes no
+    iteration, i.e. (for a valid, non-wide input) exactly on one-row inputs — the `1 × 1`
+    matrices the property demands a factorisation for. -/
+theorem qr_asWritten_panics_iff {α : Type} [Add α] [Sub α] [Mul α] [Div α] [Neg α] [Zero α] [One α]
+    [RealFns α] [NumOrd α] (A : Matrix α) (hA : A.Inv) (hw : A.columns ≤ A.rows) :
+    qrAsWritten A = .panic .unwrap ↔ A.rows = 1 := by
+  obtain ⟨_, hr, hc⟩ := hA
+  have hq : ∀ n (s : Option (Matrix α) × Matrix α),
+      (foldRange n (fun c s => qrStep A.rows c s) s).1 = none ↔ (n = 0 ∧ s.1 = none) := by
+    intro n
+    induction n with
+    | zero => intro s; simp [foldRange_zero]
+    | succ n ih =>
+      intro s
+      rw [foldRange_succ]
+      obtain ⟨q, r⟩ := foldRange n (fun c s => qrStep A.rows c s) s
+      cases q <;> simp [qrStep]
+  unfold qrAsWritten
+  rw [if_neg (by omega)]
+  have := hq (min (A.rows - 1) A.columns) (none, ofFn A.rows A.columns (get A))
+  unfold qrLoop
+  generalize foldRange (min (A.rows - 1) A.columns) (fun c s => qrStep A.rows c s)
+    (none, ofFn A.rows A.columns (get A)) = s at this ⊢
+  obtain ⟨q, r⟩ := s
+  cases q with
+  | none =>
+    simp only [true_iff]
+    have := this.mp rfl
+    omega
+  | some q =>
+    simp only [reduceCtorEq, false_iff]
+    intro h1
+    have : (some q = none) := this.mpr ⟨by omega, rfl⟩
+    cases this
+
+/-- the `1 × 1` witness -/
+example : qrAsWritten (⟨[⟨5⟩], 1, 1⟩ : Matrix Fp) = .panic .unwrap ∧
+    qr (⟨[⟨5⟩], 1, 1⟩ : Matrix Fp) = some (⟨[⟨1⟩], 1, 1⟩, ⟨[⟨5⟩], 1, 1⟩) := by
+  constructor <;> rfl
 
 /-! ### shape rejection -/
 
